@@ -264,7 +264,7 @@ class Gen:
         maxsat = 63 if n1059 else 31
         table = [(b, a) for _, b, a in self.s["bias_tables"][fid]]
         shape = shape or r.choice(["small", "small", "scattered", "allsats", "many-per-sat", "cap", "empty"] +
-                                  (["unrecognised", "dupkey", "badsat", "over31"] if mode == "wild" else []))
+                                  (["unrecognised", "dupkey", "badsat", "over31", "flood", "flood"] if mode == "wild" else []))
         ent = []
         if shape == "empty":
             pass
@@ -290,6 +290,14 @@ class Gen:
             k = r.choice([31, 32, 33, 40]) if shape == "over31" else len(table)
             for i in range(k):
                 ent.append((s, table[i % len(table)]))
+        elif shape == "flood":
+            # hundreds of entries on one satellite (signals repeat): counters wider than the 5-bit field
+            s = r.randrange(maxsat + 1)
+            k = r.choice([255, 256, 257, 300, cap])
+            for i in range(k):
+                ent.append((s, table[i % len(table)]))
+            for j in range(min(cap - k, r.choice([0, 3]))):
+                ent.append(((s + 1 + j) % (maxsat + 1), r.choice(table)))
         elif shape == "cap":
             for s in range(maxsat + 1):
                 for g in table:
